@@ -349,6 +349,6 @@ func init() {
 	register(&propertySpec{
 		ID:      "C17",
 		Explain: "Static lock-set, gate and ordering rules for the location cache: entries and the table are accessed under their locks, a location is loaded once per entry and only cached on success, the pending flag is set before it is consulted, existence checking is requested by every operation. Does not decide independence of results from the TTL or staleness under concurrent release.",
-		Rules:   []ruleFn{ruleLocksetCache, ruleInitOnce, ruleCacheOkOnly, rulePendingFirst, ruleExistConst, ruleReleaseLast, ruleCacheErrOrigin, rulePendingCount, ruleCacheGetOrCreate, ruleIdxReset, ruleCacheEvict("C17"), ruleCachePendingShared, ruleLockOrder("C17"), ruleExistEvery, ruleLoadPure("C17"), ruleCacheLocSticky, ruleIndexLoad("C17")},
+		Rules:   []ruleFn{ruleLocksetCache, ruleInitOnce, ruleCacheOkOnly, rulePendingFirst, ruleExistConst, ruleReleaseLast, ruleCacheErrOrigin, rulePendingCount, ruleCacheGetOrCreate, ruleIdxReset, ruleCacheEvict("C17"), ruleCachePendingShared, ruleLockOrder("C17"), ruleExistEvery, ruleLoadPure("C17"), ruleCacheLocSticky, ruleIndexLoad("C17"), ruleStateFresh("C17")},
 	})
 }
